@@ -5,6 +5,8 @@ read off the stage descriptors that sxfacts regenerates from generator.go / engi
 memory.go (`Generated.packetTopology`); the side conditions are decided on that data.
 -/
 import SxVerif.Proofs.ConcPacket
+import SxVerif.Proofs.ConcPacketBytes
+import SxVerif.Proofs.ConcPacketProgress
 import SxVerif.Generated.StagesPacket
 import SxVerif.Generated.Problems
 
@@ -20,19 +22,12 @@ theorem side_conditions : SideConds packetTopology := by decide
 /-- the model instance for the current tree -/
 abbrev cfg : Cfg := cfgOf packetTopology
 
-/-- errors a request list must produce by itself -/
-def failErrs (reqs : List Req) : List Err :=
-  reqs.filterMap fun r => match r.kind with
-    | .reqErr => some (.req r) | .fillErr => some (.fill r) | .ok => none
-
-def okFrames (reqs : List Req) : List Bytes := (reqs.filter (·.kind = .ok)).map (·.frame)
-
 /-- **Conserve** (invariant): in every state of every run that is not cancelled — any number of workers,
     any request list, any writer failure pattern, any receiver errors, any interleaving, any number of
     steps — what reached the writer and the error consumer, plus what is in flight in any goroutine or
     channel, is exactly what entered: one token per consumed request (a frame, or its error), one error per
     failed write, one per receiver error.  Nothing is lost and nothing is duplicated. -/
-theorem C07_conserve_partial (inp : Input) (s : Sys) (h : ReachableNC cfg inp s) (t : Tok) :
+theorem C07_conserve (inp : Input) (s : Sys) (h : ReachableNC cfg inp s) (t : Tok) :
     (doneToks s).count t + (inflight s).count t = (sourceToks s).count t :=
   reachableNC_conserve (wf_of_sideConds side_conditions) h t
 
@@ -48,55 +43,65 @@ theorem C07_errc_closes_after_cancel (inp : Input) (s : Sys) (h : Reachable cfg 
       s'.merr.closed = true :=
   packet_errc_closes_after_cancel (wf_of_sideConds side_conditions) (returnGuarded_of_sideConds side_conditions) h hc
 
-/-- **C07_final** (terminal form, partial): every uncancelled run with N ≥ 1 workers that has terminated
-    (all goroutines returned, error stream drained) delivered, as a multiset, exactly one frame per
-    error-free request to the writer and exactly one error per error request, failed build, failed write
-    and receiver error to the error consumer — any N, any request list, any failure pattern, any schedule.
-    Partial: frames are identified by the request the written packet was made for (`writtenG`); that the
-    BYTES the writer saw are that request's bytes is `C07_bytes_full` (buffer exclusivity), not proved. -/
-theorem C07_final_partial (inp : Input) (s : Sys) (h : ReachableNC cfg inp s) (hn : 0 < inp.n)
-    (ht : Terminated s) :
-    (s.writtenG.map Tok.frame ++ s.errsOut.map pktTok).Perm
-      (inp.reqs.map tokOf ++ (writeErrs s.written).map Tok.err ++ inp.rcvErrs.map Tok.err) :=
-  packet_final (wf_of_sideConds side_conditions) h hn ht
+/-- **buffer exclusivity** (`BufInv`, Proofs/ConcPacketDefs.lean), in every state of every run, cancellation
+    included: the buffer identities held by in-flight packets (in a worker, a channel, a multiplexer, the
+    sender), by workers that have taken but not yet filled one, and by the pool are pairwise distinct
+    (`allBufs s` has no duplicates: a held buffer is not in the pool and is held once), all were handed out by
+    the pool, and the memory of every buffer referenced by an in-flight packet holds the bytes `Fill` wrote
+    for that packet's request.  Uses the side conditions FreeAfterWrite (sender: WritePacketData before
+    FreeSerializeBuffer) and GetBeforeFill; `free_before_write_breaks_bytes` (Proofs/ConcPacketBytes.lean)
+    shows that with the two sender calls swapped a reachable state violates `C07_bytes_full`. -/
+theorem C07_buffer_exclusive (inp : Input) (s : Sys) (h : Reachable cfg inp s) : BufInv s :=
+  reachable_bufInv (wf_of_sideConds side_conditions) h
 
-/-- **C07_done** (partial in the same sense): in every state of every uncancelled run in which `done` is
-    closed, every error-free request of the input has already been handed to the writer (as many writes
-    for it as it occurs in the input): completion is signalled only after the last frame. -/
-theorem C07_done_partial (inp : Input) (s : Sys) (h : ReachableNC cfg inp s) (hn : 0 < inp.n)
-    (hdone : s.done = true) (r : Req) :
-    (s.writtenG.map Tok.frame).count (.frame r) = (inp.reqs.map tokOf).count (.frame r) :=
-  packet_done (wf_of_sideConds side_conditions) h hn hdone r
+/-- **byte exactness**: in every reachable state, under every schedule (cancelled or not), the k-th byte
+    string handed to `WritePacketData` is, byte for byte, the frame `Fill` built for the request the k-th
+    written packet was made for — no buffer is refilled, cleared or reused between `Fill` and the write. -/
+theorem C07_bytes_full (inp : Input) (s : Sys) (h : Reachable cfg inp s) :
+    s.written.map (·.1) = s.writtenG.map (·.frame) :=
+  packet_bytes (wf_of_sideConds side_conditions) h
 
-/-! Full statements not yet proved (no proof claimed): byte exactness needs `BufInv` (buffer exclusivity,
-    Proofs/ConcPacketDefs.lean), whose preservation proof is not written; progress is not written. -/
-
-/-- terminal form: all goroutines returned and the error stream drained ⇒ the writer received exactly the
-    frames built for the error-free requests, byte for byte, and the error stream carried exactly one
-    error per failed request, failed build, failed write and receiver error -/
-def C07_final_full : Prop :=
-  ∀ (inp : Input) (s : Sys), ReachableNC cfg inp s → Terminated s →
+/-- **C07_final** (terminal form): every uncancelled run with N ≥ 1 workers (sx passes runtime.NumCPU()) that
+    has terminated (all goroutines returned, error stream drained) handed to the writer, as a multiset of BYTE
+    STRINGS, exactly the frames built for the error-free requests, and delivered to the error consumer, as a
+    multiset, exactly one error per error request, failed build, failed write and receiver error — any N,
+    any request list, any writer failure pattern, any schedule. -/
+theorem C07_final_full (inp : Input) (s : Sys) (h : ReachableNC cfg inp s) (hn : 0 < inp.n) (ht : Terminated s) :
     (s.written.map (·.1)).Perm (okFrames inp.reqs) ∧
-    s.errsOut.Perm ((failErrs inp.reqs ++ writeErrs s.written ++ inp.rcvErrs).map Pkt.err)
+    s.errsOut.Perm ((failErrs inp.reqs ++ writeErrs s.written ++ inp.rcvErrs).map Pkt.err) :=
+  packet_final_bytes (wf_of_sideConds side_conditions) h hn ht
 
-/-- `done` closed ⇒ every frame has already been handed to the writer -/
-def C07_done_full : Prop :=
-  ∀ (inp : Input) (s : Sys), ReachableNC cfg inp s → s.done = true →
-    (s.written.map (·.1)).Perm (okFrames inp.reqs) ∧ s.doneAt = some s.written.length
+/-- **C07_done**: in every state of every uncancelled run (N ≥ 1) in which `done` is closed, the byte strings
+    handed to the writer so far are already exactly the frames of ALL error-free requests of the input, and
+    `done` was closed at the current number of writes (no write after it): completion is signalled only
+    after the last frame has been handed to the wire. -/
+theorem C07_done_full (inp : Input) (s : Sys) (h : ReachableNC cfg inp s) (hn : 0 < inp.n) (hdone : s.done = true) :
+    (s.written.map (·.1)).Perm (okFrames inp.reqs) ∧ s.doneAt = some s.written.length :=
+  ⟨packet_done_bytes (wf_of_sideConds side_conditions) h hn hdone,
+   packet_doneAt (wf_of_sideConds side_conditions) (reachableNC_reachable h) hdone⟩
 
-/-- the bytes the writer saw are the bytes built for the request the packet was made for (buffer
-    exclusivity: pool, in-flight packets and workers never share a buffer identity) -/
-def C07_bytes_full : Prop :=
-  ∀ (inp : Input) (s : Sys), Reachable cfg inp s → s.written.map (·.1) = s.writtenG.map (·.frame)
+/-- also in cancelled runs nothing is written after `done` was closed -/
+theorem C07_no_write_after_done (inp : Input) (s : Sys) (h : Reachable cfg inp s) (hdone : s.done = true) :
+    s.doneAt = some s.written.length :=
+  packet_doneAt (wf_of_sideConds side_conditions) h hdone
 
-/-- no deadlock given an error consumer (`consume` is a step of the system) -/
-def C07_progress_full : Prop :=
-  ∀ (inp : Input) (s : Sys), ReachableNC cfg inp s →
-    Terminated s ∨ ∃ ev, ev ≠ Event.cancel ∧ (step cfg inp s ev).isSome = true
+/-- **progress**: an uncancelled run never deadlocks, given the error consumer: `Event.consume` (the drain
+    loop of startScanEngine taking one item off the merged error channel) is a step of the system, enabled
+    whenever that channel is non-empty — that is the whole consumer assumption.  In every reachable state
+    either everything has returned and the stream is drained, or some step other than `cancel` is enabled. -/
+theorem C07_progress_full (inp : Input) (s : Sys) (h : ReachableNC cfg inp s) :
+    Terminated s ∨ ∃ ev, ev ≠ Event.cancel ∧ (step cfg inp s ev).isSome = true :=
+  packet_progress (wf_of_sideConds side_conditions) (capsPos_of_sideConds side_conditions) h
 
 -- non-vacuity: the reference topology satisfies the side conditions, and a concrete run (2 workers, a good
 -- request, an error request, a failing build; the write fails) is accepted by the step function and ends
 -- terminated with the expected logs (tests, labelled as such)
 example : SideConds reference := by decide
+
+-- the hypothesis FreeAfterWrite is needed: the topology with the sender's calls swapped fails it, and its
+-- system reaches a state where the writer saw another request's bytes
+example : ¬ FreeAfterWrite swappedTopology := swapped_not_freeAfterWrite
+example : ∃ s, Reachable (cfgOf swappedTopology) swappedInput s ∧
+    s.written.map (·.1) = [[2]] ∧ s.writtenG.map (·.frame) = [[1]] := free_before_write_breaks_bytes
 
 end SxVerif.C07
